@@ -3,7 +3,7 @@ V      := /verif
 B      := $(V)/build
 SANF   := -fsanitize=address,undefined -fno-sanitize-recover=undefined -fno-omit-frame-pointer
 CFLAGS := -O1 -g $(SANF) -DNNG_VERIF -DNNG_STATIC_LIB -I/repo/include -I/repo/src -I$(V)/engine -I$(B)/san -Wall -Wno-unused-function
-CXXFLAGS := -std=gnu++17 $(CFLAGS)
+CXXFLAGS := -std=gnu++17 $(CFLAGS) -I$(V)/props
 CC     := clang
 CXX    := clang++
 LIBNNG := $(B)/san/libnng.a
@@ -11,7 +11,7 @@ WRAPS  := nni_plat_mtx_lock nni_plat_mtx_unlock nni_plat_cv_wake nni_plat_cv_wak
           nni_plat_thr_init nni_plat_thr_fini nni_clock nni_msleep epoll_wait
 WRAPF  := $(foreach w,$(WRAPS),-Wl,--wrap=$(w))
 
-PURE   := C17
+PURE   := C17 C19
 ALL    := $(PURE)
 
 all: $(addprefix $(B)/bin/,$(ALL))
@@ -20,13 +20,22 @@ $(B)/obj/%.o: $(V)/engine/%.c $(LIBNNG)
 	@mkdir -p $(B)/obj
 	$(CC) $(CFLAGS) -MMD -c $< -o $@
 
-$(B)/obj/%.o: $(V)/props/%.cpp $(V)/engine/pbt.hpp
+$(B)/obj/%.o: $(V)/props/%.cpp $(V)/engine/pbt.hpp $(LIBNNG)
 	@mkdir -p $(B)/obj
 	$(CXX) $(CXXFLAGS) -MMD -c $< -o $@
 
 $(B)/bin/%: $(B)/obj/%.o $(B)/obj/caseio.o $(LIBNNG)
 	@mkdir -p $(B)/bin
 	$(CXX) $(CXXFLAGS) -o $@ $(B)/obj/$*.o $(B)/obj/caseio.o $(EXTRA_$*) $(LIBNNG) -lrapidcheck -lpthread
+
+# ---- libFuzzer targets (linked against the fuzzer-no-link instrumented library)
+FUZZLIB := $(B)/fuzz/libnng.a
+$(B)/obj/fz_caseio.o: $(V)/engine/caseio.c
+	@mkdir -p $(B)/obj
+	$(CC) $(CFLAGS) -fsanitize=fuzzer-no-link -c $< -o $@
+$(B)/bin/fz_%: $(V)/fuzz/fz_%.cc $(B)/obj/fz_caseio.o $(FUZZLIB) $(wildcard $(V)/props/*.hpp)
+	@mkdir -p $(B)/bin
+	$(CXX) $(CXXFLAGS) -I$(V)/props -fsanitize=fuzzer -o $@ $< $(B)/obj/fz_caseio.o $(FUZZLIB) -lpthread
 
 -include $(wildcard $(B)/obj/*.d)
 .SECONDARY:
